@@ -373,7 +373,39 @@ def obs_key(o):
 
 
 # ------------------------------------------------------------------ the check
+def _no_env_calls(texts):
+    import io
+    from ka.interpret import execute
+    out = []
+    for t in texts:
+        o, e = io.StringIO(), io.StringIO()
+        try:
+            st = execute(t, out=o, errout=e)
+        except C.CaseTimeout:
+            raise
+        except BaseException as x:
+            st = "escaped " + type(x).__name__
+        out.append([st, o.getvalue().strip(), e.getvalue().strip()[:80]])
+    return out
+
+
+def sessions_are_separate(ctx):
+    """a call of execute() that is given no session starts from the standard bindings: nothing assigned in one such call
+    is visible in the next, and a name never assigned reads as an error"""
+    rep = ctx["report"]
+    seqs = [["pi = 3", "2*pi"], ["rate = 12", "rate"], ["e = 1", "e"], ["true = 0", "true"], ["x = 5; x", "x"], ["f = 2", "f + 1"]]
+    for texts, res in zip(seqs, C.run_impl(_no_env_calls, seqs, ctx["rundir"], limit=20.0, chunksize=1)):
+        if not isinstance(res, list):
+            continue
+        alone = C.run_impl(_no_env_calls, [[texts[-1]]], ctx["rundir"], limit=20.0, procs=1)[0]
+        if isinstance(alone, list) and res[-1] != alone[-1]:
+            rep.violation(dict(kind="sessions-not-separate", name=texts[0].split(" ")[0]),
+                          "C14 fails: execute(%r) without a session, after execute(%r) without a session, gives %r; in a fresh process it gives %r" % (texts[-1], texts[0], res[-1], alone[-1]),
+                          dict(texts=texts, impl=res, expected_last=alone[-1]))
+
+
 def run(ctx):
+    sessions_are_separate(ctx)
     C.config_matrix(ctx["report"], ctx["rundir"], "C14", ["x = 5; x + 1", "pi = 3; 2 * pi", "x = 5; sqr(x)", "x = 5; y = x; x = 6; y", "e", "true + 1", "m = 2; 3 m", "sin = 2; sin(0)", "x = C(5,2); x*2"])
     # --- coordinator: a reassigned constant is read inside comprehension bodies and conditions as well,
     #     and a variable holding a lazy value keeps its value after it was displayed
